@@ -98,6 +98,8 @@ func (fr *frame) get(key ssa.Value) value {
 		} else if key.Pkg != nil {
 			if text, ok := embedStrings[key.Pkg.Pkg.Path()+"."+key.Name()]; ok {
 				cell = text // a `//go:embed`ded string variable
+			} else if ev, ok := fr.i.embedGlobal(key); ok {
+				cell = ev // an embed.FS variable declared under //go:embed (embed_intrinsics.go)
 			}
 		}
 		fr.i.globals[key] = &cell
